@@ -1591,3 +1591,143 @@ func freshObject(f *ssa.Function, v ssa.Value, depth int) bool {
 	}
 	return n > 0
 }
+
+// ---------------------------------------------------------------------------------------------
+// D1 what was decoded is delivered: no filter on decoded content
+//
+// "exactly the units the stream carries" / "every PES and table exactly once": once a unit has been decoded without
+// error, whether it is delivered must not depend on what it contains. In parseData no branch condition reads a field of
+// the decoded PES or PSI structure; in (*PSIData).toData the only section fields a branch condition may read are the
+// nil-ness of Syntax / Syntax.Data (nothing was decoded) and Header.TableID (which DemuxerData field receives the table).
+func (a *A) NoContentFilter() {
+	const rule = "D1"
+	ownerField := func(fa *ssa.FieldAddr) (string, string) {
+		pt, ok := fa.X.Type().Underlying().(*types.Pointer)
+		if !ok {
+			return "", ""
+		}
+		st, ok := pt.Elem().Underlying().(*types.Struct)
+		if !ok {
+			return "", ""
+		}
+		owner := ""
+		if nm, ok := pt.Elem().(*types.Named); ok {
+			owner = nm.Obj().Name()
+		}
+		return owner, st.Field(fa.Field).Name()
+	}
+	// condLoads lists the field loads a branch condition depends on (through boolean/arithmetic operators, phis,
+	// conversions and the arguments of calls)
+	condLoads := func(cond ssa.Value) []*ssa.FieldAddr {
+		var out []*ssa.FieldAddr
+		seen := map[ssa.Value]bool{}
+		var rec func(v ssa.Value, depth int)
+		rec = func(v ssa.Value, depth int) {
+			if v == nil || seen[v] || depth > 12 {
+				return
+			}
+			seen[v] = true
+			switch x := v.(type) {
+			case *ssa.BinOp:
+				rec(x.X, depth+1)
+				rec(x.Y, depth+1)
+			case *ssa.UnOp:
+				if x.Op == token.MUL {
+					if fa, ok := x.X.(*ssa.FieldAddr); ok {
+						out = append(out, fa)
+						return
+					}
+				}
+				rec(x.X, depth+1)
+			case *ssa.Phi:
+				for _, e := range x.Edges {
+					rec(e, depth+1)
+				}
+			case *ssa.Convert:
+				rec(x.X, depth+1)
+			case *ssa.ChangeType:
+				rec(x.X, depth+1)
+			case *ssa.Call:
+				for _, arg := range x.Call.Args {
+					rec(arg, depth+1)
+				}
+			case *ssa.Extract:
+				rec(x.Tuple, depth+1)
+			}
+		}
+		rec(cond, 0)
+		return out
+	}
+	// chainOwners: named struct types on the address chain of a field load (p.A.B -> types of p, p.A)
+	chainOwners := func(fa *ssa.FieldAddr) []string {
+		var out []string
+		var cur ssa.Value = fa
+		for i := 0; i < 12 && cur != nil; i++ {
+			switch x := cur.(type) {
+			case *ssa.FieldAddr:
+				o, _ := ownerField(x)
+				out = append(out, o)
+				cur = x.X
+			case *ssa.UnOp:
+				cur = x.X
+			default:
+				if pt, ok := cur.Type().Underlying().(*types.Pointer); ok {
+					if nm, ok := pt.Elem().(*types.Named); ok {
+						out = append(out, nm.Obj().Name())
+					}
+				}
+				cur = nil
+			}
+		}
+		return out
+	}
+	if pd := a.anchor(rule, "parseData"); pd != nil {
+		pd = a.defaultProcess(pd)
+		content := map[string]bool{"PESData": true, "PESHeader": true, "PESOptionalHeader": true, "PSIData": true, "PSISection": true, "PSISectionHeader": true, "PSISectionSyntax": true, "PSISectionSyntaxHeader": true, "PSISectionSyntaxData": true}
+		var bad []string
+		nif := 0
+		for _, b := range pd.Blocks {
+			iff, ok := b.Instrs[len(b.Instrs)-1].(*ssa.If)
+			if !ok {
+				continue
+			}
+			nif++
+			for _, fa := range condLoads(iff.Cond) {
+				for _, o := range chainOwners(fa) {
+					if content[o] {
+						_, fn := ownerField(fa)
+						bad = append(bad, fmt.Sprintf("%s: the branch reads %s.%s of the decoded unit", a.ipos(iff), o, fn))
+						break
+					}
+				}
+			}
+		}
+		a.R.Check(len(bad) == 0, rule, bare(pd)+"/delivery-not-filtered-by-content", a.fpos(pd),
+			fmt.Sprintf("none of the %d branch conditions reads a field of the decoded PES/PSI structure: a unit that decodes is delivered whatever it contains", nif),
+			"whether a decoded unit is delivered depends on its content — "+strings.Join(bad, "; "))
+		a.R.Floor(rule, "branch conditions in parseData", nif, 4)
+	}
+	if td := a.anchor(rule, "PSIData.toData"); td != nil {
+		var bad []string
+		nif := 0
+		for _, b := range td.Blocks {
+			iff, ok := b.Instrs[len(b.Instrs)-1].(*ssa.If)
+			if !ok {
+				continue
+			}
+			nif++
+			for _, fa := range condLoads(iff.Cond) {
+				o, fn := ownerField(fa)
+				switch {
+				case o == "PSISection" && fn == "Syntax", o == "PSISectionSyntax" && fn == "Data", o == "PSISectionHeader" && fn == "TableID", o == "PSIData" && fn == "Sections":
+				default:
+					bad = append(bad, fmt.Sprintf("%s: the branch reads %s.%s", a.ipos(iff), o, fn))
+				}
+			}
+		}
+		a.R.Check(len(bad) == 0, rule, "toData/every-decoded-section-delivered", a.fpos(td),
+			fmt.Sprintf("the %d branch conditions read only Sections, Syntax, Syntax.Data (nil tests) and Header.TableID: every decoded section of a known table type becomes a DemuxerData", nif),
+			"whether a decoded section is delivered depends on more than its table id — "+strings.Join(bad, "; "))
+		a.R.Floor(rule, "branch conditions in toData", nif, 6)
+	}
+}
